@@ -4,8 +4,11 @@
 (*      measure: two accesses to the same resource (same name, same object) by  *)
 (*      different threads conflict if at least one writes, at least one is not  *)
 (*      atomic, they hold no common mutex, and neither happens-before the other *)
-(*      (program order + thread creation/start + thread end/join, kept as       *)
-(*      vector clocks);                                                         *)
+(*      (program order + thread creation/start + thread end/join + release of a *)
+(*      mutex / next acquisition of the same mutex, kept as vector clocks);     *)
+(*  (a') what the C++ standard demands of std::mutex, on the recorded lock      *)
+(*      events: unlock() only by the thread that owns the mutex, no thread ends *)
+(*      while it owns one;                                                      *)
 (*  (b) contract events: results that must equal those of some sequential order *)
 (*      (counters equal the calls made, generator seeds equal the sequential    *)
 (*      set, unique space names, solution set complete and ranked, exact        *)
@@ -17,40 +20,78 @@ VARIABLES l,
           vc,      \* thread -> (thread -> Nat): vector clocks
           forkVC,  \* token -> vector clock at fork
           endVC,   \* token -> vector clock at thread end
-          last,    \* <<res, obj>> -> set of [t, c, w, a, locks]: latest access per thread and class
+          last,    \* <<res, obj>> -> set of [t, c, w, a, locks, site]: latest access per thread and class
+          relVC,   \* mutex -> vector clock of its last unlock()            (lock events are optional in a trace)
+          shrVC,   \* mutex -> join of the clocks of its unlock_shared() calls
+          owner,   \* mutex -> [t, name] of the exclusive owner (absent = free)
           scen
-tvars == <<l, vc, forkVC, endVC, last, scen>>
+tvars == <<l, vc, forkVC, endVC, last, relVC, shrVC, owner, scen>>
 Ev == Log[l]
 Is(e) == l <= NLog /\ Ev.e = e /\ l' = l + 1
 
 Zero == <<>>                               \* clocks are sparse functions: absent = 0
 Get(f, k) == IF k \in DOMAIN f THEN f[k] ELSE 0
 VCof(t) == IF t \in DOMAIN vc THEN vc[t] ELSE Zero
+GetVC(f, k) == IF k \in DOMAIN f THEN f[k] ELSE Zero   \* a clock table entry; absent = no edge recorded
 Put(f, k, v) == IF k \in DOMAIN f THEN [f EXCEPT ![k] = v] ELSE f @@ (k :> v)
 Merge(a, b) == [k \in DOMAIN a \cup DOMAIN b |-> IF Get(a, k) >= Get(b, k) THEN Get(a, k) ELSE Get(b, k)]
 Tick(t, c) == Put(c, t, Get(c, t) + 1)
 Report(failed, what) == IF failed = {} THEN TRUE
                         ELSE PrintT(ToJson([line |-> l, failed |-> failed, what |-> what]))
 
-TInit == l = 1 /\ vc = <<>> /\ forkVC = <<>> /\ endVC = <<>> /\ last = <<>> /\ scen = "-"
+Drop(f, k) == [x \in DOMAIN f \ {k} |-> f[x]]
+Field(name, default) == IF name \in DOMAIN Ev THEN Ev[name] ELSE default
+ReportAt(failed, what, sites) == IF failed = {} THEN TRUE
+                                 ELSE PrintT(ToJson([line |-> l, failed |-> failed, what |-> what, sites |-> sites]))
+
+TInit == /\ l = 1 /\ vc = <<>> /\ forkVC = <<>> /\ endVC = <<>> /\ last = <<>> /\ scen = "-"
+         /\ relVC = <<>> /\ shrVC = <<>> /\ owner = <<>>
 
 TScenario == /\ Is("Scenario") /\ scen' = Ev.name
              /\ vc' = <<>> /\ forkVC' = <<>> /\ endVC' = <<>> /\ last' = <<>>
+             /\ relVC' = <<>> /\ shrVC' = <<>> /\ owner' = <<>>
 
 TFork == /\ Is("Fork")
          /\ forkVC' = Put(forkVC, Ev.tok, VCof(Ev.t))
          /\ vc' = Put(vc, Ev.t, Tick(Ev.t, VCof(Ev.t)))
-         /\ UNCHANGED <<endVC, last, scen>>
+         /\ UNCHANGED <<endVC, last, relVC, shrVC, owner, scen>>
 TBegin == /\ Is("Begin")
-          /\ vc' = Put(vc, Ev.t, Tick(Ev.t, Merge(VCof(Ev.t), Get(forkVC, Ev.tok))))
-          /\ UNCHANGED <<forkVC, endVC, last, scen>>
+          /\ vc' = Put(vc, Ev.t, Tick(Ev.t, Merge(VCof(Ev.t), GetVC(forkVC, Ev.tok))))
+          /\ UNCHANGED <<forkVC, endVC, last, relVC, shrVC, owner, scen>>
+(* a thread ends: it must not own a mutex (C++: undefined behaviour; the mutex can never be locked again) *)
 TEnd == /\ Is("End")
         /\ endVC' = Put(endVC, Ev.tok, VCof(Ev.t))
         /\ vc' = Put(vc, Ev.t, Tick(Ev.t, VCof(Ev.t)))
-        /\ UNCHANGED <<forkVC, last, scen>>
+        /\ LET mine == {m \in DOMAIN owner : owner[m].t = Ev.t}
+           IN  \A m \in mine : ReportAt({"mutexOwnedAtThreadEnd"}, owner[m].name, {})
+        /\ UNCHANGED <<forkVC, last, relVC, shrVC, owner, scen>>
 TJoin == /\ Is("Join")
-         /\ vc' = Put(vc, Ev.t, Tick(Ev.t, Merge(VCof(Ev.t), Get(endVC, Ev.tok))))
-         /\ UNCHANGED <<forkVC, endVC, last, scen>>
+         /\ vc' = Put(vc, Ev.t, Tick(Ev.t, Merge(VCof(Ev.t), GetVC(endVC, Ev.tok))))
+         /\ UNCHANGED <<forkVC, endVC, last, relVC, shrVC, owner, scen>>
+
+(* ---- mutexes: release -> next acquisition is a happens-before edge; ownership is tracked ---- *)
+TAcquire == /\ Is("Acquire")
+            /\ vc' = Put(vc, Ev.t, Tick(Ev.t, Merge(VCof(Ev.t), Merge(GetVC(relVC, Ev.m), GetVC(shrVC, Ev.m)))))
+            /\ owner' = Put(owner, Ev.m, [t |-> Ev.t, name |-> Ev.name])
+            /\ UNCHANGED <<forkVC, endVC, last, relVC, shrVC, scen>>
+TRelease == /\ Is("Release")
+            /\ relVC' = Put(relVC, Ev.m, VCof(Ev.t))
+            /\ vc' = Put(vc, Ev.t, Tick(Ev.t, VCof(Ev.t)))
+            /\ ReportAt(IF Ev.m \in DOMAIN owner /\ owner[Ev.m].t = Ev.t THEN {}
+                        ELSE IF Ev.m \in DOMAIN owner THEN {"unlockByNonOwner"} ELSE {"unlockOfUnlockedMutex"},
+                        Ev.name, {})
+            /\ owner' = IF Ev.m \in DOMAIN owner THEN Drop(owner, Ev.m) ELSE owner
+            /\ UNCHANGED <<forkVC, endVC, last, shrVC, scen>>
+TAcquireShared == /\ Is("AcquireShared")
+                  /\ vc' = Put(vc, Ev.t, Tick(Ev.t, Merge(VCof(Ev.t), GetVC(relVC, Ev.m))))
+                  /\ UNCHANGED <<forkVC, endVC, last, relVC, shrVC, owner, scen>>
+TReleaseShared == /\ Is("ReleaseShared")
+                  /\ shrVC' = Put(shrVC, Ev.m, Merge(GetVC(shrVC, Ev.m), VCof(Ev.t)))
+                  /\ vc' = Put(vc, Ev.t, Tick(Ev.t, VCof(Ev.t)))
+                  /\ UNCHANGED <<forkVC, endVC, last, relVC, owner, scen>>
+(* events that carry no ordering: a failed try_lock, planner-protocol notes, the planner's result *)
+TSkip == /\ l <= NLog /\ Ev.e \in {"TryFail", "Note", "PlanResult"} /\ l' = l + 1
+         /\ UNCHANGED <<vc, forkVC, endVC, last, relVC, shrVC, owner, scen>>
 
 (* Get on the clock tables may hit an absent token: a fork the trace did not record = no edge *)
 Races(key, t, w, a, locks) ==
@@ -68,34 +109,37 @@ TAccess ==
            mine == VCof(t)
            c == Get(mine, t) + 1
            racing == Races(key, t, Ev.w, Ev.a, locks)
+           site == Field("site", "")
            old == IF key \in DOMAIN last THEN last[key] ELSE {}
-           kept == {p \in old : ~(p.t = t /\ p.w = Ev.w /\ p.a = Ev.a /\ p.locks = locks)}
-       IN  /\ Report(IF racing = {} THEN {} ELSE {"dataRace"}, Ev.res)
+           kept == {p \in old : ~(p.t = t /\ p.w = Ev.w /\ p.a = Ev.a /\ p.locks = locks /\ p.site = site)}
+       IN  /\ ReportAt(IF racing = {} THEN {} ELSE {"dataRace"}, Ev.res, {<<p.site, site>> : p \in racing})
            /\ vc' = Put(vc, t, Put(mine, t, c))
-           /\ last' = Put(last, key, kept \cup {[t |-> t, c |-> c, w |-> Ev.w, a |-> Ev.a, locks |-> locks]})
-    /\ UNCHANGED <<forkVC, endVC, scen>>
+           /\ last' = Put(last, key, kept \cup {[t |-> t, c |-> c, w |-> Ev.w, a |-> Ev.a, locks |-> locks,
+                                                  site |-> site]})
+    /\ UNCHANGED <<forkVC, endVC, relVC, shrVC, owner, scen>>
 
 Contract(name, ok) == Report(IF ok THEN {} ELSE {name}, scen)
 TCounters == Is("CountersFinal") /\ Contract("countersEqualCalls", Ev.counted = Ev.calls /\ Ev.validCounted = Ev.validReturned)
-             /\ UNCHANGED <<vc, forkVC, endVC, last, scen>>
+             /\ UNCHANGED <<vc, forkVC, endVC, last, relVC, shrVC, owner, scen>>
 TTerminate == Is("TerminateSeen") /\ Contract("terminateObservedAndSticky", Ev.seen = Ev.pollers /\ Ev.sticky)
-              /\ UNCHANGED <<vc, forkVC, endVC, last, scen>>
+              /\ UNCHANGED <<vc, forkVC, endVC, last, relVC, shrVC, owner, scen>>
 TNN == Is("NNQueries") /\ Contract("concurrentQueriesExact", Ev.mismatch = 0 /\ Ev.queries > 0)
-       /\ UNCHANGED <<vc, forkVC, endVC, last, scen>>
+       /\ UNCHANGED <<vc, forkVC, endVC, last, relVC, shrVC, owner, scen>>
 TSolutions == Is("SolutionsFinal")
               /\ Contract("solutionSetLinearizable",
                           Ev.held = Ev.added /\ Ev.distinctIndices = Ev.added /\ Ev.unrankedSnapshots = 0
                               /\ Ev.shrunkSnapshots = 0)
-              /\ UNCHANGED <<vc, forkVC, endVC, last, scen>>
+              /\ UNCHANGED <<vc, forkVC, endVC, last, relVC, shrVC, owner, scen>>
 TSeeds == Is("SeedsConcurrent") /\ Contract("seedsEqualSequentialSet", Ev.differFromSequential = 0 /\ Ev.n > 0)
-          /\ UNCHANGED <<vc, forkVC, endVC, last, scen>>
+          /\ UNCHANGED <<vc, forkVC, endVC, last, relVC, shrVC, owner, scen>>
 TSpaces == Is("SpaceNames") /\ Contract("spaceNamesUnique", Ev.distinct = Ev.n /\ Ev.n > 0)
-           /\ UNCHANGED <<vc, forkVC, endVC, last, scen>>
+           /\ UNCHANGED <<vc, forkVC, endVC, last, relVC, shrVC, owner, scen>>
 TBad == /\ l <= NLog /\ Ev.e \in {"Hang", "Crash"} /\ l' = l + 1 /\ Report({Ev.e}, scen)
-        /\ UNCHANGED <<vc, forkVC, endVC, last, scen>>
+        /\ UNCHANGED <<vc, forkVC, endVC, last, relVC, shrVC, owner, scen>>
 
 TNext == TScenario \/ TFork \/ TBegin \/ TEnd \/ TJoin \/ TAccess \/ TCounters \/ TTerminate \/ TNN
-         \/ TSolutions \/ TSeeds \/ TSpaces \/ TBad
+         \/ TSolutions \/ TSeeds \/ TSpaces \/ TBad \/ TAcquire \/ TRelease \/ TAcquireShared \/ TReleaseShared
+         \/ TSkip
 TSpec == TInit /\ [][TNext]_tvars
 NotAccepted == l <= NLog
 ===============================================================================
